@@ -24,10 +24,24 @@ def dense(n, salt):
     return v
 
 
-def cmd_work(n, m, tag):
-    a, b = dense(n, 1), dense(m, 2)
+def sparse(n, salt, period=3):
+    """every `period`-th digit non-zero (Kronecker-packing style); top digit non-zero"""
+    r = random.Random(7000003 * n + salt)
+    v = 0
+    for i in range(n):
+        if i % period == 0 or i == n - 1:
+            v |= (r.getrandbits(64) | 1) << (64 * i)
+    return v
+
+
+def operand(n, salt, pat):
+    return dense(n, salt) if pat == 'd' else sparse(n, salt)
+
+
+def cmd_work(n, m, tag, pats='dd', op='work'):
+    a, b = operand(n, 1, pats[0]), operand(m, 2, pats[1])
     wd = digest(a * b)
-    line = 'work %s %s' % (U(a), U(b))
+    line = '%s %s %s' % (op, U(a), U(b))
 
     def check(res):
         out = []
@@ -66,7 +80,7 @@ BAL = [256, 512, 1024, 2048, 4096, 8192, 16384]
 UNB = [(n, m) for n in (64, 256, 300, 1024) for m in (2 * n - 1, 2 * n, 64 * n)]
 
 
-def analyse(tag, sizes, unb):
+def analyse(tag, sizes, unb, ratio=True):
     sr = runner.StageResult()
 
     def viol(what, detail, cmd):
@@ -84,7 +98,7 @@ def analyse(tag, sizes, unb):
         if ws[n] == 0:
             sr.inconclusive.append('work counter reads 0 for n=%d (hooks not active?)' % n)
             return sr
-    for n in sizes[:-1]:
+    for n in (sizes[:-1] if ratio else []):
         ratio = ws[2 * n] / ws[n]
         sr.cells.add(('ratio', n))
         sr.samples.append({'n': n, 'W(n)': ws[n], 'W(2n)/W(n)': round(ratio, 4)})
@@ -112,11 +126,22 @@ def analyse(tag, sizes, unb):
 def stages(tier, seed):
     _W.clear()
     rel = [cmd_work(n, n, 'rel') for n in BAL] + [cmd_work(n, m, 'rel') for n, m in UNB] + [cmd_worksq(n, 'rel') for n in BAL]
+    # other operator form / buffer state / digit patterns: `x *= &b` into a receiver with spare capacity; dense x sparse
+    # and sparse x dense (every third digit non-zero)
+    rel += [cmd_work(n, n, 'rel-as', 'dd', 'workas') for n in BAL]
+    rel += [cmd_work(n, n, 'rel-ds', 'ds') for n in BAL] + [cmd_work(n, n, 'rel-sd', 'sd') for n in BAL] + [cmd_work(n, n, 'rel-ss', 'ss') for n in BAL]
     dsz = [256, 512, 1024, 2048, 4096]
     dun = [(n, m) for n, m in UNB if n * m <= 300 * 64 * 300]
     dbg = [cmd_work(n, n, 'dbg') for n in dsz] + [cmd_work(n, m, 'dbg') for n, m in dun]
     return [dict(label='rel', variant='rel', groups=[rel], floors=['MulToom3', 'MulKaratsuba', 'MulHalfKaratsuba']),
             dict(label='analyse-rel', custom=lambda: analyse('rel', BAL, UNB)),
             dict(label='analyse-rel-squares', custom=lambda: analyse('rel-sq', BAL, [])),
+            dict(label='analyse-rel-mul_assign', custom=lambda: analyse('rel-as', BAL, [])),
+            # sparse operands are outside the property's quantifier for the doubling clause (on the unchanged tree the
+            # ratio reaches 3.3-3.7 because zero multiplier digits are skipped more profitably at small sizes), so only
+            # the absolute clause "4096 x 4096 costs less than a quarter of schoolbook" is applied to them
+            dict(label='analyse-rel-dense_x_sparse', custom=lambda: analyse('rel-ds', BAL, [], ratio=False)),
+            dict(label='analyse-rel-sparse_x_dense', custom=lambda: analyse('rel-sd', BAL, [], ratio=False)),
+            dict(label='analyse-rel-sparse_x_sparse', custom=lambda: analyse('rel-ss', BAL, [], ratio=False)),
             dict(label='dbg', variant='dbg', groups=[dbg]),
             dict(label='analyse-dbg', custom=lambda: analyse('dbg', dsz, dun))]
